@@ -15,6 +15,8 @@ VERIF = Path(__file__).resolve().parent.parent
 LEAN = VERIF / "lean"
 EVIDENCE = VERIF / "evidence"
 REPLAYS = EVIDENCE / "replays"
+# debugging runs (--no-build, a scratch RATTR_REPO) must never overwrite the committed evidence records
+EVIDENCE_OUT = Path(os.environ.get("VERIF_EVIDENCE_DIR") or (EVIDENCE if os.environ.get("RATTR_REPO", "/repo") == "/repo" else EVIDENCE / "scratch"))
 REPO = Path(os.environ.get("RATTR_REPO", "/repo"))
 VENV_PY = "/venv/bin/python"
 DRIVER = LEAN / ".lake" / "build" / "bin" / "rattr_model"
@@ -339,7 +341,8 @@ def finish(pid, tier, seed, br: BuildResult, res: Result, t0, level_text=""):
         "wall_s": round(time.time() - t0, 2),
         "violations": n_viol if exit_code == 1 else 0,
     }
-    (EVIDENCE / f"{pid}.json").write_text(json.dumps(ev, indent=1, default=str))
+    EVIDENCE_OUT.mkdir(parents=True, exist_ok=True)
+    (EVIDENCE_OUT / f"{pid}.json").write_text(json.dumps(ev, indent=1, default=str))
     for l in lines:
         print(l)
     print(f"[{pid}] tier={tier} seed={seed} obligations={obligations} discharged={discharged} "
